@@ -48,7 +48,9 @@ def gen_case(ctx, g, rng, craft=False):
     kind = ("neginf" if craft == "craft" else "graded") if craft else PROFILES[index % len(PROFILES)]
     pr = rc.problem(ctx, index % len(rc.PROBLEM_SHAPES))
     N = pick_size(rng, kind, ctx.thorough)
-    lib = rc.Library(rng, pr, N, with_ln_prior=True)
+    foreign = bool(rng.random() < 0.35)
+    lib = rc.Library(rng, pr, N, with_ln_prior=True, foreign=foreign)
+    ctx.count('library_in_foreign_units' if foreign else 'library_in_internal_units')
     profile = None if kind == "real" else rc.make_profile(rng, kind, N)
     path = str(rng.choice(["inmem", "object", "file"], p=[0.35, 0.4, 0.25]))
     kw = {}
@@ -325,6 +327,7 @@ def post(ctx):
     for o in ("opt:shuffle", "opt:n_prior<N", "opt:truncation binding", "opt:n_linear>1", "opt:pool",
               "opt:return_all_logprobs", "some rejected"):
         ctx.require(o, ctx.counters[o], need)
+    ctx.require("libraries stored in foreign units (the sampler has to convert them)", ctx.counters["library_in_foreign_units"], need)
     ctx.require("u = 0.0 placed on a -inf row", ctx.counters["craft:u=0 on -inf row"], need)
     ctx.require("u placed within 1 ulp of the threshold", ctx.counters["craft:u within 1 ulp of exp(ll-max)"], need)
     ctx.require("borderline decisions recognised by the oracle", ctx.counters["cases with borderline decisions"], need)
